@@ -325,6 +325,8 @@ def run(ctx):
                     return "C08:e2e:%s:%s:%s" % (e.get("proto"), e.get("name"), kind)
                 if e["ev"] == "cpu":
                     return "C08:e2e:%s:%s" % (kind, (e.get("where") or ["unknown"])[0])
+                if e["ev"] == "gauge" and e.get("name"):
+                    return "C08:e2e:%s:%s:%s" % (e.get("proto"), e.get("name"), kind)
                 if e["ev"] == "gauge":
                     return "C08:e2e:%s:%s" % (e.get("listener"), kind)
                 if e["ev"] == "serve":
@@ -365,7 +367,10 @@ def run(ctx):
                        "bytes} x dynamic table {empty, 2 entries, full} x {bare decoder with/without string limit, server-side framer, client-side framer}; "
                        "fval: WINDOW_UPDATE increments and SETTINGS values {0,1,2^31-1,2^31,2^32-1} on both framers; slist: SETTINGS frames naming an identifier "
                        "1-3 times (every id, legal/absurd values in every order, mixed ids; 102 lists) through the real MServerConn and MClientConn "
-                       "(ReadFrame + HandleFrame), followed by a 4000-byte message the connection has to send; e2e: every poison of the menu of Containment.tla (85: bolt, a panicking codec plug-in, dubbo-thrift, "
+                       "(ReadFrame + HandleFrame), followed by a 4000-byte message the connection has to send; seq: 110 frame sequences that are legal frame "
+                       "by frame but illegal in the stream's state (7 server-side stream states x 10 test frames, stream 0 / even / lower ids, open header "
+                       "block, PUSH_PROMISE; client side: streams never opened / opened / answering / answered) through the same connection objects, then the "
+                       "next request; e2e: every poison of the menu of Containment.tla (105: bolt, a panicking codec plug-in, dubbo-thrift, "
                        "HTTP/1, HTTP/2; downstream and upstream side) on its own connection of a real MOSN next to probe connections; after every HTTP/2 poison that left "
                        "the connection open a follow-up request for a 4 KB response on the same connection, after every upstream-side HTTP/2 poison a "
                        "follow-up to a path the upstream answers properly; processor time of the idle process at the end")
@@ -374,6 +379,9 @@ def run(ctx):
                         "allocation is measured with runtime/metrics around the call; bound 1 MiB + 16 bytes per supplied byte",
                         "a decoder call that has not returned after 20 s or keeps growing the heap beyond 200 MB is a loop",
                         "e2e: a peer that saw neither bytes nor a close for 8 s calls its connection silent; gauges get 10 s to settle",
+                        "a driver process that dies with a Go runtime fatal error / panic whose stack runs through mosn packages is a verdict, not a mishap, once the "
+                        "case named in the driver's progress file (e2e: the last poison of a one-at-a-time re-run) kills a fresh process again when run alone; "
+                        "otherwise inconclusive",
                         "e2e: a follow-up request that is neither served nor refused within 8 s (or answered 504 by the proxy's own timeout) hangs; "
                         "an idle process that uses more than half a core for 1.5 s spins (goroutine dumps name the function)",
                         "e2e: announced HTTP/1 body sizes are sent one at a time; memory = what the whole process allocated meanwhile, bound 64 MiB; "
